@@ -453,12 +453,40 @@ def grid(repo: Repo, rep: Report) -> None:
                         break
                 if bad:
                     break
+            # the "equivalent list of lists": an array built from nested lists has that shape and row-major order; len() counts rows
+            if not bad:
+                for (h, wd) in ((1, 1), (2, 3), (3, 1), (1, 4)):
+                    data = [Tag(f"e{i}") for i in range(h * wd)]
+                    rows = [data[r * wd:(r + 1) * wd] for r in range(h)]
+                    got = _call(lambda: w.new(cls2, [list(r) for r in rows]))
+                    if got[0] != "ok" or tuple(got[1].attrs.get("shape", ())) != (h, wd) or got[1].attrs.get("data") != data:
+                        bad = (f"{cls2}.__init__", f"{cls2}({h} rows of {wd}) built from nested lists has shape "
+                                                   f"{getattr(got[1], 'attrs', {}).get('shape') if got[0] == 'ok' else got[1]} / wrong order")
+                        break
+                    ln2 = _call(lambda: w.cw_len(got[1]) if hasattr(w, "cw_len") else w.method(got[1], "__len__")())
+                    if ln2 != ("ok", h):
+                        bad = (f"{cls2}.__len__", f"len() of a {h}x{wd} array is {ln2}, a list of {h} rows has length {h}")
+                        break
+                    a1 = w.new(cls1, list(data))
+                    ln1 = _call(lambda: w.method(a1, "__len__")())
+                    if ln1 != ("ok", h * wd):
+                        bad = (f"{cls1}.__len__", f"len() of a 1-D array of {h * wd} items is {ln1}")
+                        break
+                if not bad:
+                    for ragged in ([[Tag("a"), Tag("b")], [Tag("c")]], []):
+                        got = _call(lambda: w.new(cls2, ragged))
+                        if got != ("raise", "ValueError"):
+                            bad = (f"{cls2}.__init__", f"nested lists {ragged!r} (ragged / empty: no shape can be inferred) give {got}, expected ValueError")
+                            break
             if bad:
                 rep.finding("SLC-G", ARRAY, bad[0], bad[0], bad[1])
             else:
-                rep.ok("SLC-G", f"{cls2}.flatten / reshape preserve row-major order and check the size")
+                rep.ok("SLC-G", f"{cls2}.flatten / reshape preserve row-major order and check the size; nested-list construction and len() agree with the list of lists")
         except Undecided as ex:
             rep.undecide("SLC-G", f"{cls2} flatten/reshape: {ex}")
+        except (Raised, IndexOutOfRange) as ex:
+            rep.finding("SLC-G", ARRAY, f"{cls2} construction/flatten/reshape", f"{cls2} construction",
+                        f"building or reshaping a well-formed {cls2} raises {ex}")
 
 
 def ref_index(rows: List[List[Any]], h: int, wd: int, key: Any) -> Any:
